@@ -415,6 +415,10 @@ impl HasChildren for XmlAttribute {
             return Err(error::Error::InvalidHierarchy);
         }
 
+        if !value.movable() {
+            return Err(error::Error::InvalidHierarchy);
+        }
+
         let v = XmlAttributeValue::try_from(value.clone())?;
         value.remove_from_parent();
         value.set_parent_id(Some(self.id()));
@@ -1537,6 +1541,10 @@ impl HasChildren for XmlDocument {
             }
         }
 
+        if !value.movable() {
+            return Err(error::Error::InvalidHierarchy);
+        }
+
         match &*value {
             XmlItem::Comment(_) => {
                 add_or_insert(self, value.clone(), id);
@@ -2129,6 +2137,10 @@ impl HasChildren for XmlElement {
 
     fn insert_by_id(&self, value: Rc<XmlItem>, id: Option<usize>) -> error::Result<Rc<XmlItem>> {
         if value.id() == self.id() || self.ancestor(value.id()) {
+            return Err(error::Error::InvalidHierarchy);
+        }
+
+        if !value.movable() {
             return Err(error::Error::InvalidHierarchy);
         }
 
@@ -3148,6 +3160,18 @@ impl XmlItem {
             XmlItem::Text(v) => v.borrow().parent_id(),
             XmlItem::Unexpanded(v) => v.borrow().parent_id(),
             XmlItem::Unparsed(v) => v.borrow().entity().borrow().parent_id(),
+        }
+    }
+
+    /// Whether the item can leave where it is: the value of an attribute defaulted from the DTD
+    /// belongs to the declaration, which is not edited through the tree.
+    fn movable(&self) -> bool {
+        match self.parent_id().and_then(|id| self.context().node(id)) {
+            Some(parent) => matches!(
+                &*parent,
+                XmlItem::Attribute(_) | XmlItem::Document(_) | XmlItem::Element(_)
+            ),
+            None => true,
         }
     }
 
